@@ -12,6 +12,7 @@ pub mod c09;
 pub mod c10;
 pub mod c11;
 pub mod c12;
+pub mod c13;
 pub mod c14;
 pub mod c15;
 pub mod c16;
@@ -43,6 +44,7 @@ pub fn monitors_for(prop: &str) -> Vec<Box<dyn Monitor>> {
         "C10" => vec![Box::new(c10::C10::default())],
         "C11" => vec![Box::new(c11::C11)],
         "C12" => vec![Box::new(c12::C12)],
+        "C13" => vec![Box::new(c13::C13::default())],
         "C14" => vec![Box::new(c14::C14::default())],
         "C15" => vec![Box::new(c15::C15::default())],
         "C16" => vec![Box::new(c16::C16::default())],
